@@ -70,7 +70,7 @@ def _try(fn):
 # ---------------------------------------------------------------------------
 
 
-def judge_algebra(link):
+def judge_algebra(link, with_variants=True):
   out = []
 
   def chk(clause, field, exp, obs):
@@ -115,8 +115,9 @@ def judge_algebra(link):
           lambda: [c.overlap.length_on_reference(),
                    c.overlap.length_on_query()]))
   # equivalence tests against independently built lines
-  others = [("itself", link), ("complement", R.link_complement(link))] + \
-      variants(link)
+  others = [("itself", link), ("complement", R.link_complement(link))]
+  if with_variants:
+    others += variants(link)
   for name, v in others:
     vt = R.link_text(v)
     x = gfapy.Line(txt, version="gfa1")
@@ -167,7 +168,7 @@ def check_stored(g, ref_lines, chk, what):
       chk("stored-links", "{}: {}.{}".format(what, name, c), exp, obs)
 
 
-def judge_graph(link, both_orders=True):
+def judge_graph(link, both_orders=True, with_variants=True):
   out = []
 
   def chk(clause, field, exp, obs):
@@ -188,7 +189,7 @@ def judge_graph(link, both_orders=True):
           r if isinstance(r, str) else None)
       check_stored(g, seg_lines(link) + [first], chk, what)
       nstates.append(sorted(str(x) for x in g.lines))
-  for name, v in variants(link):
+  for name, v in (variants(link) if with_variants else ()):
     if link[4] == "*" and v[4] != "*" or link[4] != "*" and v[4] == "*":
       continue
     vt = R.link_text(v)
@@ -438,6 +439,13 @@ def judge_p3(case):
 # ---------------------------------------------------------------------------
 
 
+TIER = {"variants-all": True}
+
+
+def short(link):
+  return link[4] == "*" or len(R.cigar_parse(link[4])) <= 2
+
+
 def shape_of(link):
   return "{}{} {}{}".format(link[0], link[1], link[2], link[3])
 
@@ -503,10 +511,11 @@ def work_algebra(chunk):
   res = new_result()
   for link in chunk:
     link = tuple(link)
-    probs, _ = _guarded(judge_algebra, link)
+    wv = TIER["variants-all"] or short(link)
+    probs, _ = _guarded(judge_algebra, link, wv)
     res["evaluations"] += 1
     res["traces"] += 1
-    res["transitions"] += 6 + 24 + 6 * len(variants(link))
+    res["transitions"] += 6 + 24 + (6 * len(variants(link)) if wv else 0)
     comp = R.link_complement(link)
     res["states"].add(h(["alg", R.link_text(comp)]))
     if R.cigar_complement(link[4]) != link[4]:
@@ -524,8 +533,8 @@ def work_graph(chunk):
     link = tuple(link)
     # the different link arriving first is exercised for overlaps of <= 2
     # operations only (cost)
-    r = _guarded(judge_graph, link,
-                 link[4] == "*" or len(R.cigar_parse(link[4])) <= 2)
+    r = _guarded(judge_graph, link, short(link),
+                 TIER["variants-all"] or short(link))
     probs, states = r
     res["evaluations"] += 1
     res["traces"] += 1
@@ -613,8 +622,8 @@ def work_p3(chunk):
 
 FIXED_ORDERS_QUICK = [("SA", "SB", "L", "Lc", "P"), ("P", "Lc", "L", "SB", "SA")]
 FIXED_ORDERS_THOROUGH = FIXED_ORDERS_QUICK + [
-    ("SA", "SB", "Lc", "L", "P"), ("L", "P", "Lc", "SA", "SB"),
-    ("SA", "SB", "P", "L", "Lc"), ("Lc", "SA", "P", "SB", "L")]
+    ("SA", "SB", "Lc", "L", "P"), ("L", "P", "Lc", "SA", "SB")]
+QUICK_ORDER_CIGARS = ["*", "1M", "1I", "2D", "1P", "1M1I", "1I1D", "1D2M"]
 
 
 def chunks(xs, n):
@@ -648,15 +657,19 @@ def run(ctx):
   c11.selftest()
   full = ["*"] + R.all_cigars(OPS, (1, 2), 3)
   assert len(full) == 2955
+  short_cigs = R.all_cigars(OPS, (1, 2), 2)
   if ctx.quick:
-    order_cigs = ["*"] + R.all_cigars(OPS, (1, 2), 1) + \
-        R.all_cigars("MID", (1,), 2)[3:]
+    TIER["variants-all"] = False
+    order_cigs = QUICK_ORDER_CIGARS
     fixed = FIXED_ORDERS_QUICK
     fixed_forms = [("forward", "cigar"), ("reversed", "cigar")]
+    fixed_cigs = short_cigs
   else:
-    order_cigs = ["*"] + R.all_cigars(OPS, (1, 2), 2)
+    TIER["variants-all"] = True
+    order_cigs = ["*"] + short_cigs
     fixed = FIXED_ORDERS_THOROUGH
     fixed_forms = list(FORMS)
+    fixed_cigs = full[1:]
   ctx.rule = ("one case = one link (algebra / graph) or one link + path form "
               "+ arrival order; non-trivial = the CIGAR differs from its own "
               "complement (so a wrong direction is visible)")
@@ -673,8 +686,12 @@ def run(ctx):
                                        "P p"],
                              "overlaps": len(order_cigs),
                              "path forms": ["/".join(f) for f in FORMS]},
-      "fixed-arrival-orders over the full CIGAR set": [" ".join(o)
-                                                       for o in fixed],
+      "fixed-arrival-orders": {"orders": [" ".join(o) for o in fixed],
+                               "overlaps": len(fixed_cigs),
+                               "path forms": ["/".join(f)
+                                              for f in fixed_forms]},
+      "different links exercised for": "all overlaps" if not ctx.quick
+      else "overlaps of <= 2 operations",
       "paths3": {"oriented segments": "{A,B,C} x {+,-}", "length": [2, 3],
                  "overlap": list(P3_CIGARS),
                  "stored form per edge": ["as traversed", "complement"],
@@ -705,9 +722,7 @@ def run(ctx):
                             chunksize=1), seen, per_class, counter)
   t3 = ctx.elapsed()
   items2 = []
-  for link in all_links:
-    if link[4] == "*":
-      continue
+  for link in links(fixed_cigs):
     for form in fixed_forms:
       items2.append((link, form, fixed))
   merge_dedup(ctx, ctx.pmap(work_orders, list(chunks(items2, 40)),
@@ -732,10 +747,10 @@ def replay(w, ctx):
   mode = w["mode"]
   if mode == "algebra":
     link = tuple(w["link"])
-    return mk("algebra", link, _guarded(judge_algebra, link)[0], w)
+    return mk("algebra", link, _guarded(judge_algebra, link, True)[0], w)
   if mode == "graph":
     link = tuple(w["link"])
-    probs, _ = _guarded(judge_graph, link, True)
+    probs, _ = _guarded(judge_graph, link, True, True)
     return mk("graph", link, probs, w,
               extra=seg_lines(link) + [R.link_text(link), R.link_text(
                   R.link_complement(link))])
